@@ -611,7 +611,7 @@ def run_procedures(case):
             later.append((case['when'], lambda: sim.loop.create_task(host.send_command(hci.HCI_Disconnect_Command(connection_handle=handle, reason=0x13)))))
         if 'vanish' in situation:
             if case['when'] < 0.01:
-                vanish()
+                sim.call(vanish)  # (inside the loop: the link tells the remaining controllers at once)
             else:
                 later.append((case['when'], vanish))
 
